@@ -411,6 +411,103 @@ pub(crate) fn traverse_unrolled3<R, F: FnMut(&'static Node) -> Option<R>>(mut f:
     None
 }
 
+/// The thread's own node, created and assigned without going through `Node::get` (same statements
+/// as the allocation branch of `Node::get`), for harnesses that stub `Node::get` away: once the
+/// thread has a node, `LocalNode::with` never allocates, but CBMC cannot see that and would encode
+/// the whole allocation path (list walk, allocation, publication loop) at every `with`.
+pub(crate) fn setup_thread_node() -> &'static Node {
+    // idempotent: a harness that runs several scenarios one after the other keeps its node (all
+    // debts cleared, helping state idle, counters reset)
+    if let Some(l) = unsafe { HLOCAL.as_ref() } {
+        let node = l.node.get().unwrap();
+        rewrite_fields(node);
+        fast_h::set_offset(&l.fast, 0);
+        helping_h::set_generation(&l.helping, 0);
+        // natively (no stub) the thread's real LocalNode is the one that counts
+        LocalNode::with(|l| {
+            fast_h::set_offset(&l.fast, 0);
+            helping_h::set_generation(&l.helping, 0);
+        });
+        return node;
+    }
+    let node = fresh_node();
+    adopt_thread_node(node);
+    unsafe {
+        HLOCAL = Some(LocalNode {
+            node: Cell::new(Some(node)),
+            fast: FastLocal::default(),
+            helping: HelpingLocal::default(),
+        });
+    }
+    node
+}
+
+/// The calling thread's `LocalNode` as a plain static of the harness (see `with_static`).
+pub(crate) static mut HLOCAL: Option<LocalNode> = None;
+
+/// Stub for `LocalNode::with` (used via kani::stub): the same two statements as the crate's no_std
+/// variant – "give the closure the thread's LocalNode, which has a node" – on a plain static
+/// instead of the `#[thread_local] static OnceCell`. CBMC's constant folding does not see through
+/// the OnceCell, which makes every branch on the node's fields symbolic and multiplies the size of
+/// every proof; the real `with` is exercised by l1_local_node_helping_roundtrip,
+/// l1_strategy_load_* and c13_wrap_load_arc, and by every native replay.
+pub(crate) fn with_static<R, F: FnOnce(&LocalNode) -> R>(f: F) -> R {
+    let l = unsafe { HLOCAL.as_ref() };
+    vassert!(l.is_some(), "harness_must_call_setup_thread_node_first");
+    let l = l.unwrap();
+    vassert!(l.node.get().is_some(), "thread_keeps_a_node");
+    f(l)
+}
+
+pub(crate) fn fresh_node() -> &'static Node {
+    let node = alloc::boxed::Box::leak(alloc::boxed::Box::<Node>::default());
+    node.helping.init();
+    node.next = LIST_HEAD.raw().load(SeqCst);
+    LIST_HEAD.raw().store(node, SeqCst);
+    rewrite_fields(node);
+    node
+}
+
+/// Stores every atomic field of the node with the value a fresh node has (for a fresh node a
+/// semantic no-op; also used to reset the harness's node between scenarios). It gives CBMC's symbolic execution field-level constants (the move of the freshly built Node into
+/// its heap allocation is a byte-wise copy that its constant folder does not see through), which is
+/// what lets it resolve the crate's branches on these fields instead of exploring both sides.
+pub(crate) fn rewrite_fields(node: &'static Node) {
+    let mut i = 0;
+    while i < 9 {
+        fast_h::poke(any_slot(node, i), NONE);
+        i += 1;
+    }
+    helping_h::poke_control(&node.helping, helping_h::C_IDLE);
+    helping_h::poke_active_addr(&node.helping, 0);
+    helping_h::poke_space_offer(&node.helping, helping_h::own_handover_addr(&node.helping));
+    helping_h::poke_handover(helping_h::own_handover_addr(&node.helping), 0);
+    node.in_use.raw().store(NODE_USED, SeqCst);
+    node.active_writers.raw().store(0, SeqCst);
+}
+
+#[cfg(feature = "experimental-thread-local")]
+pub(crate) fn adopt_thread_node(n: &'static Node) {
+    let thread_head = super::THREAD_HEAD.get_or_init(|| LocalNode {
+        node: Cell::new(None),
+        fast: FastLocal::default(),
+        helping: HelpingLocal::default(),
+    });
+    thread_head.node.set(Some(n));
+}
+
+#[cfg(not(feature = "experimental-thread-local"))]
+pub(crate) fn adopt_thread_node(n: &'static Node) {
+    super::THREAD_HEAD.with(|h| h.node.set(Some(n)));
+}
+
+/// Stub for `Node::get` in harnesses whose thread already owns a node: reaching it is a failed
+/// obligation (the read paths must not allocate once the thread has a node – also part of C08).
+pub(crate) fn node_get_unexpected() -> &'static Node {
+    vassert!(false, "no_node_allocation_once_the_thread_has_a_node");
+    loop {}
+}
+
 pub(crate) fn traverse_unrolled2<R, F: FnMut(&'static Node) -> Option<R>>(mut f: F) -> Option<R> {
     let current = unsafe { LIST_HEAD.load(SeqCst).as_ref() };
     let node = match current {
@@ -545,4 +642,5 @@ pub(crate) fn l1_local_node_helping_roundtrip() {
     });
     vcover!("l1_local_node_helping_roundtrip_end");
 }
+
 
